@@ -263,7 +263,9 @@ def targeted_text(rng):
             lines.append("%s</%s>" % (pre, t))
         elif r < 0.9:
             lines.append(pre + "%import " +
-                         rng.choice(["p", "p.q", "P", "a$$b", "p", "x y"]))
+                         rng.choice(["p", "p.q", "P", "a$$b", "p", "x y",
+                                     "pkg$$$$name", "a$$$$$$$$b", "$$$$",
+                                     "$$$$$$x", "q$$"]))
         elif r < 0.95:
             lines.append(rng.choice(["", "# c", "k"]))
         else:
